@@ -392,8 +392,8 @@ def fuzz_stream(ctx):
 
 def check_C17(ctx):
     return skeleton_check(ctx, "C17", "Acv.Props.C17", C17_THEOREMS, extra=fuzz_stream,
-        rule="pipe: every failing-stage variant x entry point; fuzz: hand-written hostile profiles and data (wrong YAML kinds at every key, anchors/aliases, embedded Rego redefining report rules, malformed source maps), 1-3 byte/token mutations of the repository's fixtures, raw bytes; through all 5 public entry points under recover() with a timeout",
-        assumptions=["panic-freedom and termination inside yaml.v3, json-gold, OPA and encoding/json are not modelled (theorem total_under_guard assumes them); stack exhaustion and out-of-memory are outside the model"])
+        rule="pipe: every failing-stage variant x entry point; fuzz: hand-written hostile profiles and data (wrong YAML kinds at every key, anchors/aliases, embedded Rego redefining report rules, malformed source maps), IRI references no URL parser accepts at every position an IRI can stand (with and without @base/@vocab), EVERY single byte and every pair over the 27 bytes that matter to the YAML and JSON decoders as data and as profile (base64 transport, so invalid UTF-8 arrives intact), 1-3 byte/token mutations of the repository's fixtures, raw random bytes; through all 5 public entry points under recover() with a timeout",
+        assumptions=["panic-freedom and termination inside yaml.v3, OPA and encoding/json are not modelled (theorem total_under_guard assumes them; json-gold panics are converted by the guard of NormalizeOrError); stack exhaustion and out-of-memory are outside the model"])
 
 
 C09_THEOREMS = ["Acv.C09.validate_is_compile_then_validateCompiled", "Acv.C09.pkg_wrappers", "Acv.C09.history_independent",
@@ -485,7 +485,7 @@ def check_C03(ctx):
         broken.append(b)
     ctx.coverage["rule"] = ("0..5 validations (names include profile-language keys such as `warning`, `message`, `and`) spread at random over the three levels "
                             "(absent/empty levels, a name under several levels or twice in one, undefined names), profile names that equal keys, random graphs, "
-                            "random report configuration (dateCreated on/off, clock, schema IRIs); non-trivial = the report differs from the default conforming one")
+                            "random report configuration (dateCreated on/off, clock incl. zoned times, schema IRIs) through ValidateWithConfiguration and ValidateCompiledWithConfiguration, the default configuration with the wall clock through Validate and ValidateCompiled, debug flag on/off; non-trivial = the report differs from the default conforming one")
     return conclude(ctx, broken, trusted=TRUST_COMMON)
 
 
@@ -551,7 +551,7 @@ def check_C18(ctx):
         ctx.oblige("correspondence:built acv binary vs library output over prior file states x subcommands", bad == 0)
     except Broken as b:
         broken.append(b)
-    ctx.coverage["rule"] = ("acv validate/generate/normalize/compile on conforming, violating, random and failing inputs; output file prior state absent/empty/shorter/longer/1MiB; "
+    ctx.coverage["rule"] = ("acv validate/generate/normalize/compile on conforming, violating, random and failing inputs, data whose JSON spelling a re-encoder would change (number literals, escapes), operational faults (missing profile/data file, missing arguments, output path in a missing directory); output file prior state absent/empty/shorter/longer/1MiB; "
                             "library output computed in-process; only the value of dateCreated is masked (checked to be RFC 3339 within the run window)")
     ctx.assumptions += ["a read-only output file cannot be produced as root in this sandbox: that prior state exists only in the model"]
     return conclude(ctx, broken, trusted=TRUST_COMMON + ["os.OpenFile/os.Create/WriteString semantics (modelled by opened/writeAt0)"])
